@@ -16,7 +16,7 @@ open Fggs Fggs.G
 
 /-! ### helper lemmas (private) -/
 
-private theorem bind_ok {α β} {x : Except Err α} {f : α → Except Err β} {b : β}
+theorem bind_ok {α β} {x : Except Err α} {f : α → Except Err β} {b : β}
     (h : (x >>= f) = .ok b) : ∃ a, x = .ok a ∧ f a = .ok b := by
   cases x with
   | error e => cases h
@@ -27,7 +27,7 @@ private theorem anl_edges (g : Graph) (l : Nat) : (g.addNodeLabel l).edges = g.e
 private theorem anl_ext (g : Graph) (l : Nat) : (g.addNodeLabel l).ext = g.ext := by
   unfold Graph.addNodeLabel; split <;> rfl
 
-private theorem addMissing_cons (g : Graph) (n : Node) (rest : List Node) :
+theorem addMissing_cons (g : Graph) (n : Node) (rest : List Node) :
     Graph.addMissing g (n :: rest) =
       if (g.nodeById n.id).isSome then Graph.addMissing g rest
       else Graph.addMissing { (g.addNodeLabel n.label) with nodes := g.nodes ++ [n] } rest := rfl
@@ -49,7 +49,7 @@ private theorem am_ext (g : Graph) (ns : List Node) : (Graph.addMissing g ns).ex
     · rw [ih]; simp [anl_ext]
 
 /-- nodes that are all present already: nothing is added -/
-private theorem am_present (g : Graph) (ns : List Node) (h : ∀ n ∈ ns, n ∈ g.nodes) :
+theorem am_present (g : Graph) (ns : List Node) (h : ∀ n ∈ ns, n ∈ g.nodes) :
     Graph.addMissing g ns = g := by
   induction ns with
   | nil => rfl
@@ -62,7 +62,7 @@ private theorem am_present (g : Graph) (ns : List Node) (h : ∀ n ∈ ns, n ∈
     rw [if_pos hs]
     exact ih (fun x hx => h x (List.mem_cons_of_mem _ hx))
 
-private theorem removeEdge_ok {g g' : Graph} {e : Edge} (h : g.removeEdge e = .ok g') :
+theorem removeEdge_ok {g g' : Graph} {e : Edge} (h : g.removeEdge e = .ok g') :
     g'.ext = g.ext ∧ g'.nodes = g.nodes ∧ g'.edges = g.edges.filter (·.id ≠ e.id) := by
   unfold Graph.removeEdge at h
   split at h
@@ -89,14 +89,14 @@ private theorem addEdge_ok {g g' : Graph} {e : Edge} (h : g.addEdge e = .ok g') 
     · cases h
   · injection h with h; subst h; simp [am_edges, am_ext]
 
-private theorem mkEdge_ok {l : ELabel} {ns : List Node} {i : Id} {e : Edge} (h : mkEdge l ns i = .ok e) :
+theorem mkEdge_ok {l : ELabel} {ns : List Node} {i : Id} {e : Edge} (h : mkEdge l ns i = .ok e) :
     e = ⟨l, ns, i⟩ ∧ l.type = ns.map (·.label) := by
   unfold mkEdge at h
   split at h
   · rename_i ht; injection h with h; exact ⟨h.symm, ht⟩
   · cases h
 
-private theorem mapM_ok {α β} (f : α → Except Err β) (q : α → Option β)
+theorem mapM_ok {α β} (f : α → Except Err β) (q : α → Option β)
     (hf : ∀ a b, f a = .ok b → q a = some b) :
     ∀ (as : List α) (bs : List β), as.mapM f = .ok bs → as.map q = bs.map some := by
   intro as
@@ -187,10 +187,10 @@ private theorem set_get_other (m : NodeMap) (r g r' : Node) (hne : r' ≠ r) :
     simp [this]
 
 /-- the node map built from the attachment nodes and the external nodes -/
-private def initMap (gs rs : List Node) (m : NodeMap) : NodeMap :=
+def initMap (gs rs : List Node) (m : NodeMap) : NodeMap :=
   (gs.zip rs).foldl (fun (m : NodeMap) (p : Node × Node) => m.set p.2 p.1) m
 
-private theorem initMap_cons (g r : Node) (gs rs : List Node) (m : NodeMap) :
+theorem initMap_cons (g r : Node) (gs rs : List Node) (m : NodeMap) :
     initMap (g :: gs) (r :: rs) m = initMap gs rs (m.set r g) := rfl
 
 private theorem initMap_other (gs rs : List Node) (m : NodeMap) (r : Node) (h : r ∉ rs) :
@@ -225,7 +225,7 @@ private theorem initMap_get (gs rs : List Node) (m : NodeMap) (hnd : rs.Nodup)
         exact ih rs _ hnd.2 i (by simpa using hi) (by simpa using hi')
 
 /-- every value of the initial node map is an attachment node -/
-private theorem initMap_values (gs rs : List Node) (m : NodeMap) (r x : Node)
+theorem initMap_values (gs rs : List Node) (m : NodeMap) (r x : Node)
     (h : (initMap gs rs m).get r = some x) : m.get r = some x ∨ x ∈ gs := by
   induction gs generalizing rs m with
   | nil => left; simpa [initMap] using h
@@ -246,7 +246,7 @@ private theorem initMap_values (gs rs : List Node) (m : NodeMap) (r x : Node)
 
 /-! copying the nodes -/
 
-private theorem copyNodes_spec (ns : List Node) : ∀ (g : Graph) (m : NodeMap) (f : Nat)
+theorem copyNodes_spec (ns : List Node) : ∀ (g : Graph) (m : NodeMap) (f : Nat)
     (g' : Graph) (m' : NodeMap) (f' : Nat), copyNodes g m f ns = .ok (g', m', f') →
     g'.ext = g.ext ∧ g'.edges = g.edges ∧
     (∃ new, g'.nodes = g.nodes ++ new ∧ (∀ n ∈ new, ∃ k, f ≤ k ∧ n.id = .impl k) ∧
@@ -290,7 +290,7 @@ private theorem copyNodes_spec (ns : List Node) : ∀ (g : Graph) (m : NodeMap) 
 
 /-! copying the edges -/
 
-private theorem copyEdges_spec (m : NodeMap) (es : List Edge) : ∀ (g : Graph) (em : List (Edge × Edge))
+theorem copyEdges_spec (m : NodeMap) (es : List Edge) : ∀ (g : Graph) (em : List (Edge × Edge))
     (f : Nat) (g' : Graph) (em' : List (Edge × Edge)) (f' : Nat),
     copyEdges g m em f es = .ok (g', em', f') →
     g'.ext = g.ext ∧
@@ -346,7 +346,7 @@ private theorem copyEdges_spec (m : NodeMap) (es : List Edge) : ∀ (g : Graph) 
 
 /-! the call as a whole -/
 
-private theorem replaceEdge_ok {fresh : Nat} {g : Graph} {e : Edge} {repl : Graph} {r : ReplaceResult}
+theorem replaceEdge_ok {fresh : Nat} {g : Graph} {e : Edge} {repl : Graph} {r : ReplaceResult}
     (h : replaceEdge fresh g e repl = .ok r) :
     ∃ g0 g1 m1 f1 g2 em f2, e.label.type = repl.type ∧ g.removeEdge e = .ok g0 ∧
       copyNodes g0 (initMap e.nodes repl.ext []) fresh repl.nodes = .ok (g1, m1, f1) ∧
